@@ -127,3 +127,22 @@ PROPS["C05"] = dict(
                               "pointer provenance beyond 'stays inside the slice' is not modelled"],
     trusted=SUB_TRUSTED,
 )
+
+ALL_SUB_PROOFS = ["SpecProofs.v", "Sub/IsEqualProofs.v", "Sub/PairProofs.v", "Sub/RabinKarpProofs.v", "Sub/ShiftOrProofs.v",
+                  "Sub/PackedPairProofs.v", "Sub/PortablePrefilterProofs.v", "Sub/TwoWayPreProofs.v", "Sub/TwoWayFwdProofs.v",
+                  "Sub/TwoWayRevProofs.v", "Sub/SearcherProofs.v"]
+TIER1 = ["Two-Way searches are proved under the decidable needle certificate tw_cert_fwd/tw_cert_rev (Tier 1); the certificate is "
+         "evaluated by the extracted model for every needle the run uses (it held for all of them) and was swept over all binary needles "
+         "up to 13 bytes, ternary up to 8 bytes and 3000 random needles; 'for every needle' in full is Tier 2 (DESIGN.md 6/C03)"]
+
+PROPS["C14"] = dict(
+    id="C14", coq_files=MEM_PROOF_FILES + ["Mem/IterProofs.v"] + ALL_SUB_PROOFS + ["Props/C14.v"],
+    gen=gens.gen_c14, oracle=gens.oracle_c14, nontrivial=gens.nontrivial_c14,
+    shrink_fields=["h"], builds=["debug"],
+    rule="the case families of C01-C12, C18, C19 in the debug profile (debug assertions + overflow checks) under catch_unwind; PrefilterState "
+         "transitions driven from arbitrary states incl. skips around 2^29 and u32::MAX; packed-pair find/find_prefilter on haystack lengths "
+         "min_haystack_len-3..+3 for every pair family (the documented panic must occur exactly below the minimum); non-trivial = every case",
+    assumptions=SUB_ASSUME + TIER1 + ["usize additions (pos + needle.len() etc.) cannot overflow for slices (lengths <= isize::MAX); modelled in nat"],
+    trusted=SUB_TRUSTED,
+    compare_trace=False,
+)
